@@ -2187,3 +2187,80 @@ def docs_init_rule(syn, prop, rule="C15.R7"):
     r.floor = 12
     r.stats["literals"] = n
     return r
+
+
+def impl_assembly_rule(syn, prop, rule):
+    """every piece the derive computes is spliced into the impl it emits, and comes from the function that computes it"""
+    r = Result(rule, "DerivedTS::into_impl splices every computed piece into the emitted impl (header, WithoutGenerics, `OptionInnerType = Self`, ident(), DOCS, name, decl/decl_concrete, inline/inline_flattened, visit_generics, output_path, visit_dependencies over the recorded dependencies, the export test), each bound from its generator")
+    fn = syn.fn("DerivedTS::into_impl", "macros/src/lib.rs")
+    if fn is None:
+        r.fail(prop, "anchor-missing into_impl", "not found")
+        return r
+    want = {"impl_start": "generate_impl_block_header", "assoc_type": "generate_assoc_type", "name": "generate_name_fn", "inline": "generate_inline_fn",
+            "decl": "generate_decl_fn", "generics_fn": "generate_generics_fn", "export": "generate_export_test", "docs": None, "output_path_fn": None, "dependencies": "self.dependencies"}
+    lets = {}
+    for e in S.events(fn, "let"):
+        lets[S.squash(e["pat"])] = S.squash(e["init"])
+    final = None
+    for e in templates(fn):
+        fl = [t for t in S.flat(e["tokens"]) if isinstance(t, str)]
+        if "impl_start" in fl and "visit_dependencies" in fl:
+            final = (e, fl)
+    if final is None:
+        r.fail(prop, "anchor-missing impl template", "the template that assembles the impl was not found", fn["file"], fn["line"])
+        return r
+    e, fl = final
+    spliced = {fl[i + 1] for i in range(len(fl) - 1) if fl[i] == "#"}
+    for var, gen in want.items():
+        init = lets.get(var, "")
+        ok = var in spliced and (gen is None or gen in init)
+        r.inst(piece=var, spliced=var in spliced, bound_from=init[:60], ok=ok)
+        if not ok:
+            r.fail(prop, "impl-piece-missing %s" % var, "`#%s` is %s" % (var, "not part of the emitted impl" if var not in spliced else "not bound from %s (`%s`)" % (gen, init[:60])), fn["file"], e["line"])
+    txt = " ".join(fl)
+    fixed = {"type OptionInnerType = Self ;": "OptionInnerType = Self", "fn ident ( ) -> String": "ident()", "fn visit_dependencies (": "visit_dependencies()"}
+    for frag, nm in fixed.items():
+        ok = frag in txt
+        r.inst(piece=nm, present=ok)
+        if not ok:
+            r.fail(prop, "impl-piece-missing %s" % nm, "the emitted impl has no `%s`" % frag, fn["file"], e["line"])
+    r.floor = 13
+    return r
+
+
+def inflection_table_rule(syn, prop, rule="C09.R4"):
+    """the eight spellings serde accepts for rename_all, each bound to the rule of the same name"""
+    r = Result(rule, "parse_assign_inflection maps exactly serde's eight rename_all spellings to the rule of the same name (lowercase, UPPERCASE, camelCase, snake_case, PascalCase, SCREAMING_SNAKE_CASE, kebab-case, SCREAMING-KEBAB-CASE) and rejects every other string with an error")
+    WANT = {"lowercase": "Lower", "UPPERCASE": "Upper", "camelCase": "Camel", "snake_case": "Snake", "PascalCase": "Pascal",
+            "SCREAMING_SNAKE_CASE": "ScreamingSnake", "kebab-case": "Kebab", "SCREAMING-KEBAB-CASE": "ScreamingKebab"}
+    fn = syn.fn("attr::parse_assign_inflection", "attr/mod.rs") or syn.fn("parse_assign_inflection", "attr/mod.rs")
+    if fn is None:
+        r.fail(prop, "anchor-missing parse_assign_inflection", "not found")
+        return r
+    got, fallback_errs = {}, None
+    for m in S.events(fn, "match"):
+        arms = m["arms"]
+        lits = [a for a in arms if S.squash(a["pat"]).startswith('"')]
+        if len(lits) < 4:
+            continue
+        for a in arms:
+            pat = S.squash(a["pat"])
+            body = S.squash(a["body"])
+            if pat.startswith('"'):
+                for alt in S.split_top(a["pat"], "|"):
+                    mm = re.match(r"^Inflection::(\w+),?$", body)
+                    got[S.unquote(S.squash(alt))] = mm.group(1) if mm else "?" + body[:30]
+            else:
+                fallback_errs = "syn_err!" in body or "Err(" in body
+    for k, v in WANT.items():
+        ok = got.get(k) == v
+        r.inst(spelling=k, selects=got.get(k), expected=v, ok=ok)
+        if not ok:
+            r.fail(prop, "rename-all-spelling %s" % k, "`rename_all = \"%s\"` selects %s, serde's rule of that name is %s" % (k, got.get(k), v), fn["file"], fn["line"])
+    for k in sorted(set(got) - set(WANT)):
+        r.fail(prop, "rename-all-spelling-extra %s" % k, "`%s` is accepted for rename_all but is not one of serde's spellings" % k, fn["file"], fn["line"])
+    r.inst(other_values_rejected=bool(fallback_errs))
+    if not fallback_errs:
+        r.fail(prop, "rename-all-unknown-accepted", "a value that is not one of the eight spellings is not rejected with an error", fn["file"], fn["line"])
+    r.floor = 9
+    return r
